@@ -203,6 +203,28 @@ def run(ctx):
                       [b"\x01" * l, b"\x02" * (l - 1)], [b"", b""], [b"\x00" * l, b"\xff" * l],
                       [b"\x00" + b"\x01" * l, b"\x02" * l]):
             add_dec("strings", n, items)
+    # sigdecode_strings: the right total length split at every position (only the middle one is a pair of l-byte strings)
+    for n in (7, 256, 65537, orders[0], orders[2]):
+        l = (len("%x" % n) + 1) // 2
+        both = bytes((17 * i + 3) % 251 for i in range(2 * l))
+        for cut in range(0, 2 * l + 1):
+            add_dec("strings", n, [both[:cut], both[cut:]])
+    # DER with long-form lengths padded by zero octets (non-minimal): on the outer SEQUENCE and on the first INTEGER, for
+    # bodies below and above 255 octets (the huge orders give INTEGER contents of 129 and 256 octets)
+    def minimal(v):
+        return v.to_bytes(max(1, (v.bit_length() + 7) // 8), "big")
+
+    def hdr(tag, ln, pad):
+        if pad == 0:
+            return bytes([tag]) + (bytes([ln]) if ln < 0x80 else bytes([0x80 + len(minimal(ln))]) + minimal(ln))
+        m = b"\x00" * pad + minimal(ln)
+        return bytes([tag, 0x80 + len(m)]) + m
+    for n in [257, orders[0], orders[4]] + sigcommon.HUGE_ORDERS:
+        for rr, s in ((n - 1, n - 2), (1, n // 2), (2 ** (n.bit_length() - 1), 3)):
+            ib = [b"\x00" * (minimal(v)[0] >= 0x80) + minimal(v) for v in (rr, s)]
+            for p_outer, p_r, p_s in ((1, 0, 0), (2, 0, 0), (0, 1, 0), (0, 0, 1), (0, 2, 0), (1, 1, 1), (0, 0, 0)):
+                body = hdr(2, len(ib[0]), p_r) + ib[0] + hdr(2, len(ib[1]), p_s) + ib[1]
+                add_dec("der", n, hdr(0x30, len(body), p_outer) + body)
     # DER decoder: mutation corpus from base signatures
     bases = []
     for n in (7, 257, orders[0], orders[2], orders[4]):
